@@ -269,7 +269,7 @@ PROPS = {
         ],
         model_limits='records are decoded values (address, height, integer); the key shapes enter through decPrefix/keyLt (decimal prefix and byte order of <height>_<addr>), tied to the real stores by the piter/rwiter steps; the fee pool, the rewards pool and validator rewards are not part of this model (C02/C13); the model branch poolMinus (pool cannot pay an undelegation) is proved unreachable (undelegate_own_active_always_succeeds) and is therefore not exercised by the correspondence'),
     'C15': dict(
-        lean_modules=['OLP.Props.C15'], namespaces=['OLP.Props.C15'],
+        lean_modules=['OLP.Props.C15', 'OLP.Props.C15Arith'], namespaces=['OLP.Props.C15'],
         required_theorems=['vote_only_own_slot_once', 'nonwitness_vote_does_not_count', 'wrong_index_does_not_count', 'second_vote_refused',
                            'yes_count_monotone', 'no_count_monotone', 'threshold_is_more_than_two_thirds', 'never_both_decided',
                            'wf_reachable', 'endBlock_never_panics', 'block_end_moves_no_value', 'cleanup_moves_released', 'cleanup_moves_failed',
@@ -281,7 +281,7 @@ PROPS = {
                            'erc20_lock_resubmission_is_refused',
                            'redeem_debits_before_tracker', 'refund_at_most_once', 'refund_requires_two_thirds_no_and_pays_owner',
                            'counted_votes_are_witness_reports', 'tracker_comes_from_submission', 'supply_eq_circulation_partial',
-                           'lying_report_cannot_touch_the_supply'],
+                           'lying_report_cannot_touch_the_supply', 'threshold_is_source_finalized', 'threshold_is_source_failed'],
         run=run_c15, replay=replay_olh('ethtrk'), level='proof',
         assumptions=[
             'the witness list is fixed at genesis and holds no address twice (witness records are keyed by address; nothing adds a witness after InitChain) — hypothesis Cfg.WF of the theorems',
@@ -311,7 +311,7 @@ PROPS = {
         ],
         model_limits='the frozen-owner guard of WITHDRAW goes over the validator records the store iteration enumerates (records that existed at the last commit; a record created in the running block cannot be frozen, STAKE refuses a frozen validator); the unstake guard against pending allegations cannot see a request created earlier in the same block (State.IterateRange enumerates committed keys only; counted, not part of the property as stated); fee handling and every other balance movement are environment (Tx.credit)'),
     'C13': dict(
-        lean_modules=['OLP.Props.C13'], namespaces=['OLP.Props.C13'],
+        lean_modules=['OLP.Props.C13', 'OLP.Props.C13Arith'], namespaces=['OLP.Props.C13'],
         required_theorems=['consumed_le_pulled', 'credited_le_consumed', 'credited_le_pulled', 'absent_not_credited', 'consumed_eq_recorded',
                            'block_keeps_nonneg', 'chunk_matures_once', 'withdraw_le_matured', 'validator_withdraw_le_matured',
                            'withdraw_never_raises_matured', 'wrapped_withdraw_raises_matured',
@@ -319,7 +319,7 @@ PROPS = {
                            'calc_cache_restart_invariant', 'restart_patterns_agree',
                            'stall_regression_example', 'slow_cycle_regression_example',
                            'pulled_le_year_left_by_till', 'pulled_le_year_left_at_cycle_start',
-                           'year_never_overdistributed', 'pull_never_fails'],
+                           'year_never_overdistributed', 'pull_never_fails', 'cycle_no_is_source', 'first_in_cycle_is_source', 'last_in_cycle_is_source'],
         run=run_c13, replay=replay_olh('rewards'), level='proof',
         assumptions=[
             'the one float expression of the calculator, int64(float64(secsToClose*cycle)/float64(secsPerCycle)), is a parameter `fq` of the model and NO theorem assumes anything about it (since fix 2606b58 the forecast is clamped to one cycle whatever it returns); the driver instantiates it with IEEE-754 double division truncated as Go/amd64 does, and the correspondence run compares every pulled amount with the implementation. That the conversion of +-Inf/NaN (a cycle of zero seconds) is the same on every platform is a determinism premise (C01), not used here',
@@ -363,7 +363,7 @@ PROPS = {
         ],
         model_limits='the library primitives (ed25519 / secp256k1 / go-ethereum / btcec point parsing, address hashes, signature verification, EIP-155 sender recovery) are uninterpreted parameters answered by the real libraries in the correspondence run; that a signature accepted for one message is accepted for no other message under the same key (hypothesis MessageBinding of accepted_signatures_bind_message / _transaction, the single-signature consequence of the unforgeability hypothesis of tamper_rejected) is not provable in the model and is VALIDATED per algorithm on every run by the sigm monitor accepted-signature-survives-message-change:<alg>:<position class> (message changed inside the first 32 bytes, at and after byte 32, in the last byte, one byte appended, one dropped) and at application level by the mutant classes on originals signed with ED25519, SECP256K1 and BTCEC accounts (ETHSECP cannot sign a transaction: go-ethereum verifies 32-byte digests only); the BTCEC oracle of sigm is defined independently of the handler (ECDSA over SHA-256(msg) with btcec directly), signatures are produced by two kinds of client (libraries as specified / the repo handlers); the JSON *decoder* is not modelled (unser is a proof device; acceptance of non-canonical encodings is C05); Go < 1.22 escapes \\b and \\f as \\u0008 / \\u000c, so nodes built with different toolchains would disagree on RawBytes() of such memos (outside the model); internal transactions created by block hooks (ExpireProposals / FinalizeProposals) do not pass Validate and are outside this property; OLVM: what remains outside the full-strength statements is (a) the cryptography itself (EthLib.sender is a parameter; go-ethereum enforces low-s) and (b) that the public key named in the signature entry is pinned through its address only (olvm_signer_key_through_address)'),
     'C19': dict(
-        lean_modules=['OLP.Props.C19'], namespaces=['OLP.Props.C19'],
+        lean_modules=['OLP.Props.C19', 'OLP.Props.C19Arith'], namespaces=['OLP.Props.C19'],
         required_theorems=['verdict_iff_threshold', 'required_is_ceiling', 'votes_are_of_currently_active', 'verdict_from_active_votes_alone',
                            'tally_follows_verdict', 'guilty_only_by_verdict', 'no_active_no_verdict', 'tracker_is_a_set',
                            'one_vote_per_validator', 'second_vote_rejected', 'only_active_can_allege_or_vote',
@@ -371,7 +371,7 @@ PROPS = {
                            'guilty_cannot_stake_until_release', 'penalty_exact_and_bounty_le_penalty',
                            'release_only_after_time', 'guilty_released_only_after_time', 'guilty_verdict_starts_the_clock',
                            'tally_order_independent', 'guilty_dropped_from_set',
-                           'cleanup_keeps_requests_partial', 'duplicate_request_dropped'],
+                           'cleanup_keeps_requests_partial', 'duplicate_request_dropped', 'required_votes_is_source', 'verdict_is_source'],
         run=run_c19, replay=replay_olh('alleg'), level='proof',
         assumptions=[
             'big.Float: the penalty Int(stake*base%/dec + 0.5) is a PARAMETER of the model (FloatOps.penalty); penalty_exact_and_bounty_le_penalty assumes it equals the exact rounding floor((2*stake*pct+dec)/(2*dec)) (Exact F). The harness evaluates the same big.Float expression on every tally line and counts every stake for which it differs from the exact reading (distribution float:penalty-differs-from-exact, never observed; exact for stake*base% < 2^53). The thresholds (required votes, guilty / innocent tests) are integer arithmetic in the code since 1d3139c and carry no assumption',
@@ -382,7 +382,7 @@ PROPS = {
         ],
         model_limits='the monitor checks "drops out of the validator set" on the application\'s own election (update list and status records) at every height and, for validators that keep a record, on the simulated Tendermint set after 6 consecutive blocks IN WHICH SOMEBODY IS ELECTED: with nobody elected the application keeps the last set (c5836bc, Tendermint cannot run with an empty set), so a convicted last validator stays in Tendermint\'s set until somebody else qualifies (by design). Errors of balance.AddToAddress / delayHandleUnstake inside the tally (the `continue` paths after them) are not modelled (never observed); the refused-debit branch of the slash (MinusFromAddress is all-or-nothing since 7abde80, charged to the current stake address since ebb3d1d) is modelled and proved but not reached by generated histories (the staking handlers keep the three records equal). The eight regression scenarios of the repaired defects (corpus/C19, harness/apph/alleg_script.go) run first in every check and must end in the repaired outcome without any monitor signature.'),
     'C14': dict(
-        lean_modules=['OLP.Props.C14'], namespaces=['OLP.Props.C14'],
+        lean_modules=['OLP.Props.C14', 'OLP.Props.C14Arith'], namespaces=['OLP.Props.C14'],
         required_theorems=['wf_init', 'wf_reachable', 'active_copy_is_exclusive', 'stage_monotone', 'stage_monotone_history',
                            'voting_starts_only_at_goal_before_deadline', 'expire_only_after_deadline', 'endblock_expiry_only_after_deadline',
                            'outcome_follows_snapshot_votes', 'open_vote_means_undecided', 'snapshot_fixed_when_voting_begins',
@@ -392,7 +392,7 @@ PROPS = {
                            'gov_handlers_conserves_value', 'gov_history_conserves_value', 'distribution_conserves_value',
                            'distribution_refused_without_validator_record', 'expired_is_queued_for_finalisation', 'expired_finalisation_succeeds', 'endblock_finalises_expired',
                            'outsider_expiry_before_deadline_refused', 'outsider_expiry_in_voting_stage', 'boundary_vote_stays_undecided',
-                           'expired_proposal_is_finalised_next_block', 'expired_without_vote_records_is_finalised'],
+                           'expired_proposal_is_finalised_next_block', 'expired_without_vote_records_is_finalised', 'pass_condition_is_source', 'fail_condition_is_source'],
         run=run_c14, replay=replay_olh('gov'), level='proof',
         assumptions=[
             'the tally of ResultSoFar is integer arithmetic (the float percentages are only logged); Go evaluates yesPower*100, (totalPower-noPower)*100 and passPercent*totalPower in int64 while the model uses unbounded integers: total voting power below 2^63/100 (validator power is whole OLT staked). The rule as written in Go is compared every run with the rationals on all 0<=x<=total<=120, pass 1..100 (738000 points)',
